@@ -38,13 +38,13 @@ Nrf ==
   /\ Ev.action = "nrf"
   /\ LET last == Ev.script[Len(Ev.script)] IN
      /\ viol' = viol
-          \cup (IF last = "201t" /\ Ev.returned /\ ~(Ev.oauth /\ Ev.probe = 401)
+          \cup (IF last \in {"201t", "200t"} /\ Ev.returned /\ ~(Ev.oauth /\ Ev.probe = 401)
                   THEN {V("oauth_declared_by_nrf_is_enforced", [oauth |-> Ev.oauth, probe |-> Ev.probe])} ELSE {})
      /\ div' = div
           \cup (IF ~Ev.returned THEN {[trace |-> Ev.trace, step |-> Ev.seq, what |-> "registration did not return", script |-> Ev.script]} ELSE {})
           \cup (IF Ev.returned /\ Ev.nfIdKind = "empty" THEN {[trace |-> Ev.trace, step |-> Ev.seq, what |-> "NfId empty after registration", script |-> Ev.script]} ELSE {})
           \cup (IF Ev.returned /\ Ev.attempts # Len(Ev.script) THEN {[trace |-> Ev.trace, step |-> Ev.seq, what |-> "number of attempts differs from the model", script |-> Ev.script]} ELSE {})
-          \cup (IF Ev.returned /\ last # "201t" /\ Ev.probe = 401 THEN {[trace |-> Ev.trace, step |-> Ev.seq, what |-> "token required although the NRF did not declare OAuth2", script |-> Ev.script]} ELSE {})
+          \cup (IF Ev.returned /\ last \notin {"201t", "200t"} /\ Ev.probe = 401 THEN {[trace |-> Ev.trace, step |-> Ev.seq, what |-> "token required although the NRF did not declare OAuth2", script |-> Ev.script]} ELSE {})
 Finish == /\ l = Len(Trace) + 1
           /\ PrintT(<<"VF-RESULT", ToJson([consumed |-> l - 1, viol |-> viol, div |-> div])>>)
           /\ l' = l + 1 /\ UNCHANGED <<viol, div>>
